@@ -303,6 +303,10 @@ class Ctx:
         if only_prefixes:
             mine = [r for r in self.rejects if str(r.get("clause", "")).startswith(tuple(only_prefixes))]
             self.notes["rejections_by_sibling_property_clauses"] = len(self.rejects) - len(mine)
+            if os.environ.get("VERIF_SHOW_SIBLING"):          # development aid: what the siblings' clauses said
+                for r in self.rejects:
+                    if r not in mine:
+                        print("SIBLING-CLAUSE", r.get("clause"), json.dumps(r.get("detail"))[:300], flush=True)
             self.rejects = mine
         known = load_known_findings(self.prop)
         open_ids = {k["id"]: k for k in known if k.get("status") == "open"}
